@@ -95,12 +95,17 @@ func ZzvC02Redistribute() {
 	qt := NewQuotaTree()
 	for i := 0; i < n; i++ {
 		s := zzvNames[i]
-		sib[i] = zzvSib{
-			req:  zzverif.Int64("req"+s, 0, B),
-			min:  zzverif.Int64("min"+s, 0, B),
-			guar: zzverif.Int64("guar"+s, 0, B),
-			w:    zzverif.Int64("w"+s, 0, WB),
-			lend: zzverif.Choice("lend"+s, zzverif.Param("lendModes")) == 0,
+		sib[i] = zzvSib{req: zzverif.Int64("req"+s, 0, B), lend: zzverif.Choice("lend"+s, zzverif.Param("lendModes")) == 0}
+		if zzverif.Param("zeroMin") == 0 {
+			sib[i].min = zzverif.Int64("min"+s, 0, B)
+			sib[i].guar = zzverif.Int64("guar"+s, 0, B)
+		}
+		if uw := zzverif.Param("unitWeights"); uw == 1 {
+			sib[i].w = 1 // equal concrete weights: the later water-filling rounds are the subject
+		} else if uw == 2 {
+			sib[i].w = int64(i + 1) // 1:2:3
+		} else {
+			sib[i].w = zzverif.Int64("w"+s, 0, WB)
 		}
 		qt.insert(s, sib[i].w, sib[i].req, sib[i].min, sib[i].guar, sib[i].lend)
 	}
@@ -138,6 +143,12 @@ func ZzvC02Redistribute() {
 	}
 	// (c) work conserving and (f) exact: the leftover handed out is min(L+, what is still wanted by weighted siblings)
 	zzverif.Assert(zzverif.Implies(L > 0, sumRt-sumG0 == zzverif.MinInt64(L, wantMore)), "(c,f) handed out == min(leftover, unmet weighted demand): no unit created or lost")
+	if zzverif.Param("noOrder") == 1 {
+		zzverif.Observe("rt0", rt[0])
+		zzverif.Observe("sumRt", sumRt)
+		zzverif.Reach("end")
+		return
+	}
 	// (g) order independence: the same siblings inserted in reverse order
 	qt2 := NewQuotaTree()
 	for i := n - 1; i >= 0; i-- {
